@@ -175,6 +175,8 @@ def run_collective(jumps, M, w, cut, order=0, SITE_FRAC=SITE_FRAC):
     if order == 1:
         rows = rows[::-1]
     df = pd.DataFrame(data=np.array(rows, dtype=int).reshape(-1, 5), columns=COLS)
+    if order == 1:
+        df.index = [3 * k + 7 for k in range(len(df))][::-1]  # row labels as left behind by filtering / re-ordering a larger table
     # the site structure may carry its own cell: the `lattice` argument (simulation cell) defines the distances
     Ms = np.asarray(M) if order == 0 else (np.asarray(M) * 1.05) @ geom.rotation((12.0, 31.0, 47.0)).T
     sites = concretise.make_sites(np.array(SITE_FRAC), ['A', 'A', 'B', 'B'][: len(SITE_FRAC)], Ms)
@@ -216,6 +218,32 @@ def check_table(jumps, M, w, cut, D, order=0, SITE_FRAC=SITE_FRAC):
     if len(c.coll_jumps) != len(got_list):
         viols.append(('coll-jumps-length-mismatch', f'{len(c.coll_jumps)} vs {len(got_list)}'))
     return viols, (tuple(sorted(jumps)), w, round(cut, 6), tuple(sorted(tuple(sorted(p)) for p in got)))
+
+
+def check_zero_cutoff(dt):
+    """Through the Jumps interface, four sites: two simultaneous jumps of different atoms that share no site (closest
+    sites 0.5 A apart). Cut-off exactly 0: no pair, whichever way 'within' is read; cut-off 0.7: the pair."""
+    from gemdat.jumps import Jumps
+
+    viols = []
+    trace = [[1, 5], [1, 5], [3, 7], [3, 7], [3, 7]]
+    M = np.eye(3) * 6.0
+    traj = concretise.vib_traj(2, len(trace), M, dt)
+    sites = concretise.make_sites(np.array(SITE_FRAC), ['A', 'A', 'B', 'B'], M)
+    j = Jumps(impl.make_transitions(trace, 4, trajectory=traj, diff_trajectory=traj, sites=sites))
+    D = geom.dist_matrix(SITE_FRAC, SITE_FRAC, M)
+    rows = set(impl.jump_rows(j.data))
+    for cut in (0.0, 0.7, 0):
+        try:
+            c = j.collective(max_dist=cut)
+        except Exception as e:  # noqa: BLE001
+            viols.append((f'jumps-collective-raise-{type(e).__name__}', f'max_dist={cut!r}: {e}'))
+            continue
+        exp = ref_pairs(rows, c.max_steps, cut, D)
+        got = {frozenset((row_of(a), row_of(b))) for a, b in c.collective}
+        if got != exp:
+            viols.append(('jumps-collective-pairs-wrong-at-cut-off-zero' if cut == 0 else 'jumps-collective-pairs-wrong', f'max_dist={cut!r}: got {len(got)} pairs expected {len(exp)} (jumps share no site, closest sites {D[0, 2]:.2f} A apart)'))
+    return viols
 
 
 def check_window(trace, S, dt, cut):
@@ -272,6 +300,11 @@ def run_shard(shard) -> Result:
     res = Result()
     tier = shard['tier']
     if shard['kind'] == 'window':
+        for dt in (1e-15, 5e-14):
+            impl.clear_weak_caches()
+            res.evals += 3
+            for kind, detail in check_zero_cutoff(dt):
+                res.violation(kind, {'zero_cutoff_dt': dt}, detail)
         frames = hop.frame_alphabet(2, 3, False)
         for L in (4, 5, 3):
             n = 0
@@ -354,6 +387,8 @@ def run_shard(shard) -> Result:
 
 
 def replay(case):
+    if 'zero_cutoff_dt' in case:
+        return [{'kind': k, 'detail': d} for k, d in check_zero_cutoff(case['zero_cutoff_dt'])]
     if 'window_trace' in case:
         viols, _ = check_window(case['window_trace'], 3, case['dt'], 1.0)
     else:
